@@ -218,11 +218,11 @@ def packet_identity_writers(ctx, prop):
                 recv = term(t.value)
                 n += 1
                 if recv == 'self':
-                    ok = not (f.cls is not None and f.cls.name == 'Packet' and f.name not in ('__init__',))
+                    ok = not (f.cls is not None and f.cls.name == 'Packet' and whomay.root_callers(ctx.repo, f) != {'Packet.__init__'})
                     why = 'own field of %s' % (f.cls.name if f.cls else '?')
                 else:
-                    ok = (f.qualname, attr) in allowed_foreign
-                    why = allowed_foreign.get((f.qualname, attr), '')
+                    ok = all((r, attr) in allowed_foreign for r in whomay.root_callers(ctx.repo, f))
+                    why = allowed_foreign.get((f.qualname, attr), 'helper of the sender re-stamp')
                 ctx.ob(rule, ok)
                 if ok:
                     ctx.sample(rule, '%s::%s' % (f.module.relpath, f.qualname), 'write to .%s: %s' % (attr, why))
@@ -282,7 +282,7 @@ NOT_SELF_SPAWNED = {'PortMonitor': 'spawned by the user', 'Splitter': 'run() ref
 
 
 def spawn_sites(ctx, prop, only=None):
-    """every element with a generator run(self, env) starts it exactly once in __init__ as
+    """every element with a generator run(self, env) starts it exactly once in its constructor as
     env.process(self.run(env)) with its own environment (this is also what lets the analysis
     identify the parameter env with self.env)"""
     rule = prop + '.W.spawn'
@@ -296,23 +296,35 @@ def spawn_sites(ctx, prop, only=None):
         init = c.lookup('__init__')
         if init is None:
             continue
-        spawns = []
-        for node in walk_local(init.node):
-            if isinstance(node, ast.Call) and isinstance(node.func, ast.Attribute) and node.func.attr == 'process' and node.args:
-                a = node.args[0]
-                if isinstance(a, ast.Call) and term(a.func) == 'self.run':
-                    spawns.append((term(node.func.value), [term(x) for x in a.args], node.lineno))
-        n += 1
         takes_env = len([p for p in f.params if p != 'self']) == 1
-        ok = len(spawns) == 1 and spawns[0][0] in ('env', 'self.env') and (
-            (takes_env and spawns[0][1] and spawns[0][1][0] in ('env', 'self.env')) or (not takes_env and not spawns[0][1]))
+        env_idx = init.params.index('env') if 'env' in init.params else None
+        envs = {'self.env', 'env'} | ({'@p%d' % env_idx} if env_idx is not None else set())
+        bad = None
+        npaths = 0
+        for p in ctx.paths(c, init, Options()):
+            if p.exit == 'raise':
+                continue
+            npaths += 1
+            spawns = [e for e in p.effects if e.kind == 'call' and e.target.endswith('.process') and e.args
+                      and e.args[0].startswith('self.run(')]
+            if len(spawns) != 1:
+                bad = '%d spawns of run() on the path [%s]' % (len(spawns), p.cond_str()[:100])
+                break
+            e = spawns[0]
+            recv = e.target[:-len('.process')]
+            arg = e.args[0][len('self.run('):-1]
+            if recv not in envs or (takes_env and arg not in envs) or (not takes_env and arg):
+                bad = 'spawned as %s.process(self.run(%s))' % (recv, arg)
+                break
+        n += 1
+        ok = bad is None and npaths > 0
         ctx.ob(rule, ok)
         construct = '%s::%s.__init__' % (init.module.relpath, c.name)
         if ok:
-            ctx.sample(rule, construct, 'server started once: %s.process(self.run(%s))' % (spawns[0][0], ','.join(spawns[0][1])))
+            ctx.sample(rule, construct, 'server started exactly once with the element\'s own environment on all %d constructor paths' % npaths)
         else:
-            ctx.violation(rule, construct, 'spawns of run: %s' % [(s[0], s[1]) for s in spawns],
-                          '%s must start its run() exactly once with its own environment (found %d)' % (c.name, len(spawns)), where=init.where)
+            ctx.violation(rule, construct, bad or 'no constructor path',
+                          '%s must start its run() exactly once with its own environment: %s' % (c.name, bad), where=init.where)
     ctx.floor(rule, n, 1 if only and len(only) <= 2 else 2 if only else 8, 'self-spawning elements')
 
 
@@ -494,6 +506,7 @@ def server_yield_whitelist(ctx, prop):
                     kind = None
                     calls = [x for x in p.effects if x.kind == 'call' and x.sym == v]
                     callee = calls[0].target if calls else (v[:-2] if v.endswith('()') else v)
+                    callee = re.sub(r'@\d+', '', callee)
                     args = calls[0].args if calls else ()
                     if callee == 'self.packets_available.get':
                         tag = '@%d' % e.epoch if e.epoch else ''
@@ -532,23 +545,22 @@ def sp_rescan(ctx, prop):
     paths = ctx.paths(c, f, Options())
     n = 0
     construct = '%s::SP.run' % f.module.relpath
-    # scan order: the iterated list is sorted descending by the priority value in __init__
-    init = c.methods.get('__init__')
+    # scan order: the iterated list is sorted descending by the priority value in the constructor
+    init = c.lookup('__init__')
     order_ok = False
+    seen_val = None
     if init is not None:
-        for node in walk_local(init.node):
-            if isinstance(node, ast.Assign) and term(node.targets[0]) == 'self.priorities':
-                v = node.value
-                if isinstance(v, ast.Call) and term(v.func) == 'sorted':
-                    kw = {k.arg: k.value for k in v.keywords}
-                    key = kw.get('key')
-                    rev = kw.get('reverse')
-                    key_ok = isinstance(key, ast.Lambda) and term(key.body) in ('%s[1]' % key.args.args[0].arg,)
-                    src_ok = v.args and term(v.args[0]).endswith('.items()')
-                    order_ok = bool(key_ok and src_ok and isinstance(rev, ast.Constant) and rev.value is True)
+        pidx = init.params.index('priorities') if 'priorities' in init.params else None
+        for p in ctx.paths(c, init, Options()):
+            for e in p.effects:
+                if e.kind == 'write' and e.target == 'self.priorities':
+                    seen_val = e.value
+                    order_ok = pidx is not None and e.value.replace(' ', '') in (
+                        'sorted(@p%d.items(),key=lambda(1:%%b1[1]),reverse=True)' % pidx,)
     ctx.ob(rule, order_ok)
     if not order_ok:
-        ctx.violation(rule, '%s::SP.__init__' % f.module.relpath, 'scan order', 'SP.__init__: the scan list must be the (flow, priority) pairs sorted by the priority value itself, descending',
+        ctx.violation(rule, '%s::SP.__init__' % f.module.relpath, 'scan order %s' % seen_val,
+                      'SP.__init__: the scan list must be the (flow, priority) pairs sorted by the priority value itself, descending (is: %s)' % seen_val,
                       where=init.where if init else f.where)
     for reg in loops_of(paths):
         if reg.kind != 'for':
@@ -749,7 +761,9 @@ def copy_aliasing(ctx, prop):
     if init is None:
         raise AnalysisError('anchor vanished: Packet.__init__')
     mutable = []
-    for node in walk_local(init.node):
+    init_nodes = [n for g in c.methods.values() if g.name == '__init__' or whomay.root_callers(ctx.repo, g) == {'Packet.__init__'}
+                  for n in walk_local(g.node)]
+    for node in init_nodes:
         if isinstance(node, (ast.Assign, ast.AnnAssign)):
             v = node.value
             t = node.targets[0] if isinstance(node, ast.Assign) else node.target
